@@ -145,6 +145,9 @@ class _SimWriter(io.RawIOBase):
     def writable(self):
         return True
 
+    def fileno(self):
+        return 10**6 + (id(self) % 10**6)
+
     def write(self, b):
         b = bytes(b)
         fs = self.fs
@@ -182,6 +185,65 @@ class _SimWriter(io.RawIOBase):
     @property
     def closed(self):
         return self._closed
+
+
+class SimOS(types.ModuleType):
+    """`os` as seen by pyoma2.functions.gen, should a future version use it around saving
+    (write to a temporary file, fsync, rename): "sim:" paths live in the SimFS, everything else is real."""
+
+    def __init__(self, real, fs):
+        super().__init__("os")
+        object.__setattr__(self, "_real", real)
+        object.__setattr__(self, "_fs", fs)
+        object.__setattr__(self, "path", _SimOSPath(real.path, fs))
+
+    def __getattr__(self, name):
+        return getattr(object.__getattribute__(self, "_real"), name)
+
+    def _is(self, p):
+        return isinstance(p, str) and p.startswith("sim:")
+
+    def replace(self, src, dst, *a, **k):
+        if self._is(src) or self._is(dst):
+            fs = self._fs
+            fs.plan.tick("fs.rename")
+            if src not in fs.files:
+                raise FileNotFoundError(errno.ENOENT, "simulated: no such file", src)
+            fs.files[dst] = fs.files.pop(src)
+            return None
+        return self._real.replace(src, dst, *a, **k)
+
+    rename = replace
+
+    def remove(self, p, *a, **k):
+        if self._is(p):
+            if p not in self._fs.files:
+                raise FileNotFoundError(errno.ENOENT, "simulated: no such file", p)
+            del self._fs.files[p]
+            return None
+        return self._real.remove(p, *a, **k)
+
+    unlink = remove
+
+    def fsync(self, fd):
+        if isinstance(fd, int) and fd >= 10**6:
+            return None
+        return self._real.fsync(fd)
+
+
+class _SimOSPath:
+    def __init__(self, real, fs):
+        self._real, self._fs = real, fs
+
+    def __getattr__(self, name):
+        return getattr(self._real, name)
+
+    def exists(self, p):
+        if isinstance(p, str) and p.startswith("sim:"):
+            return p in self._fs.files
+        return self._real.exists(p)
+
+    isfile = exists
 
 
 class _SimReader(io.BytesIO):
